@@ -501,7 +501,46 @@ func InitTemplate(r *RNG, kind int) []byte {
 
 const NumInitTemplates = 10
 
+// JumpyInit returns init code whose only JUMPDEST sits behind a data region of n bytes (some of them 0x5b):
+// the position of the valid destination differs with n.
+func JumpyInit(r *RNG, n int) []byte {
+	a := NewAsm()
+	target := 3 + 1 + n
+	a.Op(PUSH1, byte(target), JUMP)
+	data := r.Bytes(n)
+	for i := range data {
+		if i%3 == 1 {
+			data[i] = JUMPDEST
+		}
+	}
+	a.Op(byte(PUSH1 + n - 1))
+	a.Raw(data)
+	a.Op(JUMPDEST, PUSH1, 0, PUSH1, 0, RETURN)
+	return a.Bytes()
+}
+
+// gCreatePair: two plain CREATEs (no code hash) with init codes that both jump, laid out differently.
+func (g *Gen) gCreatePair() {
+	n1 := 1 + g.R.Intn(32)
+	n2 := 1 + g.R.Intn(32)
+	if n1 == n2 {
+		n2 = n1%32 + 1
+	}
+	for _, n := range []int{n1, n2} {
+		init := JumpyInit(g.R, n)
+		g.A.MstoreBytes(0, init)
+		g.A.PushU(uint64(len(init))).PushU(0).PushU(0)
+		g.op(CREATE)
+		g.A.PushU(uint64(g.R.Intn(8)))
+		g.op(SSTORE)
+	}
+}
+
 func (g *Gen) gCreate() {
+	if g.R.Chance(20) {
+		g.gCreatePair()
+		return
+	}
 	init := InitTemplate(g.R, g.R.Intn(NumInitTemplates))
 	if len(init) > 96 {
 		init = init[:96]
